@@ -159,6 +159,11 @@ impl<const N: usize> Sodg<N> {
                 let d = vtx.data.clone();
                 vtx.persistence = Persistence::Taken;
                 let branch = vtx.branch;
+                if branch == BRANCH_STATIC {
+                    #[cfg(debug_assertions)]
+                    trace!("#data: data of ungrouped ν{v} retrieved");
+                    return Some(d);
+                }
                 let s = self.stores.get_mut(branch).unwrap();
                 *s -= 1;
                 if *s == 0 {
